@@ -33,3 +33,4 @@ META = dict(
          "overlapping bulk copies differ between back-ends (scope NDPAIR:overlap).",
     technique="Lean 4 proof (bisimulation over the operation set, address bounds) + lock-step differential runs Go-backed vs C-backed",
 )
+READY = True
